@@ -9,6 +9,8 @@ def run(ctx, R, tier):
     F = ctx.facts('default')
     run_engine_a(R, F, groups=('rt',), config='default', singular=True, singular_floor=55)
     # the easing of a spatial track's attenuation is only total on [0, 1]: the normalised distance stays inside it
+    from .c06 import defaults_match
+    defaults_match(F, R, rule='B.C01.defaults')
     from .c15 import distance_range
     distance_range(F, R)
     from .c01_out import run_out
